@@ -8,6 +8,10 @@ def dispatch (j : Json) : R Json := do
   | "text_encode" => handleTextEncode j
   | "text_dict" => handleTextDict j
   | "dict_update" => handleDictUpdate j
+  | "load" => handleLoad j
+  | "encode_events" => handleEncodeEvents j
+  | "pyint" => handlePyInt j
+  | "pyfloat" => handlePyFloat j
   | "ping" => pure (Json.mkObj [("pong", Json.bool true)])
   | _ => throw s!"unknown op {op}"
 
